@@ -3,7 +3,7 @@ import regcommon as rc
 import vlib
 
 STRICT = {'K1_DeclaredTypeGoverns': False, 'F12_PushBlobUncoded': False}
-STACKS_Q = 'mem;http(mem);debug(http(debug(mem)));select(mem);sub(mem);unify(mem,mem);http(http(mem))'
+STACKS_Q = 'mem;http(mem);debug(http(debug(mem)));select(mem);sub(mem);unify(mem,mem);http(http(mem));http(funcsnr(mem))'
 STACKS_T = STACKS_Q + ';funcs(mem);http(funcs(mem));unifyc(mem,mem);http(sub(http(mem)));http(unify(mem,http(mem)));http:omitdigest(mem)'
 
 
